@@ -23,6 +23,8 @@
 (* Sched = "all"  : every interleaving (used to check that the reference    *)
 (*                  itself is confluent: one printed multiset, no stuck     *)
 (*                  thread, single assignment).                             *)
+(* Sched = "det"  : one canonical run (silent steps first, then the first    *)
+(*                  enabled print).                                         *)
 (* Sched = "norm" : silent steps first, in a fixed order; only the choice   *)
 (*                  between enabled prints branches.  Silent steps commute  *)
 (*                  with everything and never disable anything, so the      *)
@@ -248,7 +250,13 @@ Init ==
 NormStep == IF SilentEn # {} THEN Step(CHOOSE t \in SilentEn : TRUE)
             ELSE \E t \in PrintEn : Step(t)
 
+\* one canonical run: silent steps first, then the first enabled print (used to compute the reference multiset;
+\* that the choice does not matter is what OneBag checks under Sched = "all")
+DetStep == IF SilentEn # {} THEN Step(CHOOSE t \in SilentEn : TRUE)
+           ELSE PrintEn # {} /\ Step(CHOOSE t \in PrintEn : TRUE)
+
 Next == IF Sched = "norm" THEN NormStep
+        ELSE IF Sched = "det" THEN DetStep
         ELSE \E t \in DOMAIN thr : Enabled(t) /\ Step(t)
 
 Spec == Init /\ [][Next]_svars
